@@ -43,7 +43,7 @@ def gen_history(rng):
             if r < 3:
                 muts.append(("AA", rec))
             elif r < 8:
-                muts.append(("AC", dict(rec, ttl=rng.choice([0, 1, 2, 1000]), cf=rng.chance(1, 4))))
+                muts.append(("AC", dict(rec, ttl=rng.choice([0, 1, 2, 1000, 1000, 0x7FFFFFFF, 0x80000000, 0x80000001, 0xFFFFFFFF]), cf=rng.chance(1, 4))))
             elif r < 9:
                 muts.append(("RM", rec))
             else:
